@@ -70,14 +70,25 @@ class FortranNameManager:
     """Maps names that appear in intermediate code to Fortran identifiers.
     """
 
+    @staticmethod
+    def make_fortran_identifier(name):
+        # Fortran identifiers are case-insensitive: 'y' and 'Y' must not end
+        # up as 'lploc_y' and 'lploc_Y'.
+        return make_identifier_from_name(name).lower()
+
     def __init__(self):
         from pytools import UniqueNameGenerator
         self.name_generator = UniqueNameGenerator()
-        self.local_map = KeyToUniqueNameMap(name_generator=self.name_generator)
+        self.local_map = KeyToUniqueNameMap(
+                name_generator=self.name_generator,
+                key_translate_func=self.make_fortran_identifier)
         self.global_map = KeyToUniqueNameMap(start={
                 "<t>": "dagrt_t", "<dt>": "dagrt_dt"},
-                name_generator=self.name_generator)
-        self.function_map = KeyToUniqueNameMap(name_generator=self.name_generator)
+                name_generator=self.name_generator,
+                key_translate_func=self.make_fortran_identifier)
+        self.function_map = KeyToUniqueNameMap(
+                name_generator=self.name_generator,
+                key_translate_func=self.make_fortran_identifier)
 
     def name_global(self, var):
         """Return the identifier for a global variable."""
